@@ -708,6 +708,25 @@ func (m *multi) checkOwnershipHistory(final *obs) {
 			}
 		}
 	}
+	// C06: a destroy whose KILL for an owned task did not reach the master cannot report success
+	// (evaluated before any later cleanup asks again)
+	m.mu.Lock()
+	reqs := append([]*request(nil), m.sc.Requests...)
+	m.mu.Unlock()
+	for _, r := range reqs {
+		if r.Op != "DESTROY" || !r.done || r.Err != "" || r.Keep {
+			continue
+		}
+		e := m.envs[r.Env]
+		for _, k := range kills {
+			if k.FailedTask == "" || k.Seq < r.invoke || k.Seq > r.ret || !e.owned[k.FailedTask] {
+				continue
+			}
+			if st := m.s.mesos.Task(k.FailedTask); st != nil && st.Alive() && !st.Killed {
+				m.viol("C06", "destroy-that-cannot-be-honoured-errs", "success-although-a-kill-call-failed", "DestroyEnvironment of environment %d returned success, but the KILL call for its task %s failed (seq %d) and the task was never asked again: it is still alive", e.Idx, k.FailedTask, k.Seq)
+			}
+		}
+	}
 	// tasks launched for environments that are gone and never became owned fall to the next cleanup
 	if m.prop == "C06" {
 		m.noMoreFaults = true
@@ -1084,7 +1103,36 @@ func (m *multi) runC18() {
 		return
 	}
 	// reconnect without restart: reconciliation answers must not kill owned tasks
-	e := m.newEnv(wfName)
+	var e *envRec
+	if c.W(3, "after-overlapping-teardown") == 2 {
+		// the environment was created while the tasks of its predecessor were still being killed
+		// (slow KILL calls): what the core knows about its tasks went through that overlap
+		a := m.newEnv(wfName)
+		if !a.Created {
+			return
+		}
+		m.s.mesos.CallLatency = func(typ string) time.Duration {
+			if typ == "KILL" {
+				return time.Duration(1+c.W(3, "kill-call-ms")) * 100 * time.Millisecond
+			}
+			return 0
+		}
+		var wg simsync.WaitGroup
+		wg.Add(1)
+		c.S.GoInc(m.rpc().inc, "client-destroy", func() {
+			defer wg.Done()
+			m.destroy(a, false, false, false)
+		})
+		simrt.Sleep(time.Duration(c.W(8, "create-after")) * 50 * time.Millisecond)
+		e = m.newEnv(wfName)
+		wg.Wait()
+		m.s.mesos.CallLatency = nil
+		if e.Created {
+			c.Count("probe.created_during_the_kills_of_its_predecessor")
+		}
+	} else {
+		e = m.newEnv(wfName)
+	}
 	if !e.Created {
 		return
 	}
